@@ -2,8 +2,8 @@
 """Rewrites section 11 of DESIGN.md from seeded/*/meta.json plus the hand-written strengthening tables below."""
 import json, os, re
 ROOT = os.path.dirname(os.path.dirname(os.path.abspath(__file__)))
-rows = {r: [] for r in range(1, 11)}
-stats = {r: [0, 0] for r in range(1, 11)}
+rows = {r: [] for r in range(1, 12)}
+stats = {r: [0, 0] for r in range(1, 12)}
 for d in sorted(os.listdir(os.path.join(ROOT, 'seeded'))):
     m = json.load(open(os.path.join(ROOT, 'seeded', d, 'meta.json')))
     summ = re.sub(r'\s+', ' ', (m.get('summary') or '').replace('|', '/'))
@@ -22,14 +22,15 @@ STRENGTH7 = open(os.path.join(ROOT, 'tools', 'design11_round7.md')).read()
 STRENGTH8 = open(os.path.join(ROOT, 'tools', 'design11_round8.md')).read()
 STRENGTH9 = open(os.path.join(ROOT, 'tools', 'design11_round9.md')).read()
 STRENGTH10 = open(os.path.join(ROOT, 'tools', 'design11_round10.md')).read()
+STRENGTH11 = open(os.path.join(ROOT, 'tools', 'design11_round11.md')).read()
 txt = '''
 ---------------------------------------------------------------------------------------
 
 ## 11. Seeded changes: which checks catch which
 
-Three hundred and ninety-four changes to initia-labs/OPinit were written by **independent sub-agents**
-in ten rounds (two per property and round, six agents delivered a single change; each agent saw only the text of its property and its
-own scratch worktree, nothing from /verif; in rounds 2 to 10 the property text was followed by
+Four hundred and thirty-four changes to initia-labs/OPinit were written by **independent sub-agents**
+in eleven rounds (two per property and round, six agents delivered a single change; each agent saw only the text of its property and its
+own scratch worktree, nothing from /verif; in rounds 2 to 11 the property text was followed by
 one-line summaries of the earlier ideas for that property, with the request to find something
 different and subtler). Each was asked for a change that breaks the property, still compiles, passes the 157
 existing tests, and needs something specific to manifest; each came with a demonstration test.
@@ -52,9 +53,10 @@ the tracked files), quick tier, `VERIF_SEED=1`.
 | 8 (O, P) | %d of %d | 37 of 38 (1 cannot touch a recorded withdrawal, see below) |
 | 9 (Q, R) | %d of %d | 39 of 40 (1 needs a chain without bonded validators, see below) |
 | 10 (S, T) | %d of %d | 38 of 38 |
+| 11 (U, V) | %d of %d | ROUND11AFTER |
 
 "caught by" lists every check that was run against the change and exited 1 (round 1: the
-property's own check plus a related set of 4-10 checks; rounds 2 to 10: the own check; C13-H, C13-I, C13-L also against C14, C06-L against C07, C20-L against C07 and C09); every other
+property's own check plus a related set of 4-10 checks; rounds 2 to 11: the own check; C13-H, C13-I, C13-L also against C14, C06-L against C07, C20-L against C07 and C09); every other
 check of the set stayed silent (exit 0) - no unrelated check raised an alarm on any change -
 except C16 on C18-A/B and C02 on C01-A, which were inconclusive (exit 2: a nondeterministic
 validator-update order makes rapid report "flaky"; one run was disturbed by a concurrent clean-up).
@@ -63,7 +65,7 @@ validator-update order makes rapid report "flaky"; one run was disturbed by a co
 
 | id | change | own check | caught by |
 |---|---|---|---|
-''' % (stats[1][0], stats[1][1], stats[1][1], stats[1][1], stats[2][0], stats[2][1], stats[2][1], stats[2][1], stats[3][0], stats[3][1], stats[3][1], stats[3][1], stats[4][0], stats[4][1], stats[4][1], stats[4][1], stats[5][0], stats[5][1], stats[5][1], stats[5][1], stats[6][0], stats[6][1], stats[6][1], stats[6][1], stats[7][0], stats[7][1], stats[8][0], stats[8][1], stats[9][0], stats[9][1], stats[10][0], stats[10][1]) + '\n'.join(rows[1]) + '\n' + STRENGTH1 + '''
+''' % (stats[1][0], stats[1][1], stats[1][1], stats[1][1], stats[2][0], stats[2][1], stats[2][1], stats[2][1], stats[3][0], stats[3][1], stats[3][1], stats[3][1], stats[4][0], stats[4][1], stats[4][1], stats[4][1], stats[5][0], stats[5][1], stats[5][1], stats[5][1], stats[6][0], stats[6][1], stats[6][1], stats[6][1], stats[7][0], stats[7][1], stats[8][0], stats[8][1], stats[9][0], stats[9][1], stats[10][0], stats[10][1], stats[11][0], stats[11][1]) + '\n'.join(rows[1]) + '\n' + STRENGTH1 + '''
 ### Round 2
 
 | id | change | own check | caught by |
@@ -109,11 +111,16 @@ validator-update order makes rapid report "flaky"; one run was disturbed by a co
 | id | change | own check | caught by |
 |---|---|---|---|
 ''' + '\n'.join(rows[10]) + '\n' + STRENGTH10 + '''
+### Round 11
+
+| id | change | own check | caught by |
+|---|---|---|---|
+''' + '\n'.join(rows[11]) + '\n' + STRENGTH11 + '''
 What this does **not** show: the changes were written against the properties, not against the
-checks, but they are about twenty per property and of the kind an LLM finds plausible; the second round,
+checks, but they are about twenty-two per property and of the kind an LLM finds plausible; the second round,
 asked for subtlety, got past the first version of 25 of 40 checks, the third past 24, the
-fourth past 15, the fifth past 18, the sixth past 24 of 39, the seventh past 23 of 39 the eighth past 20 of 38, the ninth past 24 of 40 and the tenth past 17 of 38, so an
-eleventh round would still find gaps - the agents see every earlier idea and are asked for something else each time, while
+fourth past 15, the fifth past 18, the sixth past 24 of 39, the seventh past 23 of 39 the eighth past 20 of 38, the ninth past 24 of 40, the tenth past 17 of 38 and the eleventh past 21 of 40, so a
+twelfth round would still find gaps - the agents see every earlier idea and are asked for something else each time, while
 the generators only know what they were given. Their kinds shifted, though: round 2 mostly found inputs at a
 scale, at a boundary or in a spelling the generators did not produce; round 3 mostly found
 *environment* assumptions of the harness - one goroutine, one committed context, a store that was
